@@ -111,6 +111,7 @@ Definition parties (m : msg) : list Z :=
   | MAdd a _ _ _ _ _ | MRemove a _ _ _ _ _ | MAddUni a _ _ _ _ _ | MRemoveUni a _ _ _ _ _ => [a]
   | MSend a b _ _ => [a; b]
   | MBlock _ => []
+  | MUpdateParams _ _ => []
   end.
 
 (** [A] contains the parties of [m], the fee collector, and the escrow address of every pool
@@ -129,7 +130,7 @@ Proof.
   pose proof (inv_seq _ I) as Hseq.
   destruct m as [buy sender rcpt din ain dout aout deadline | sender dtok max_tok exact min_liq deadline
                 | sender dlpt w min_std min_tok deadline | sender cp0 dtok exact min_liq deadline
-                | sender cp0 dtok min_tok w deadline | from to d0 amt | dt]; simpl in E, Hpar.
+                | sender cp0 dtok min_tok w deadline | from to d0 amt | dt | auth q]; simpl in E, Hpar.
   - assert (Hs : In sender A) by (apply Hpar; simpl; auto).
     assert (Hr : In rcpt A) by (apply Hpar; simpl; auto).
     destruct (exec_swap_spec _ _ _ _ _ _ _ _ _ _ _ E) as (_ & _ & _ & _ & _ & _ & sold & bought & SE & _).
@@ -166,6 +167,8 @@ Proof.
     destruct (exec_send_spec _ _ _ _ _ _ _ E) as (_ & _ & _ & M & _).
     apply (moves_total A _ _ _ _ M). unfold balanced. bal_sheet.
   - inversion E; subst. reflexivity.
+  - destruct (exec_update_params_spec _ _ _ _ _ E) as (_ & _ & _ & HLed & HSup & _).
+    intros d. unfold total, supply. rewrite HLed, HSup. reflexivity.
 Qed.
 
 (** the sequence never decreases, so a set closed for the final sequence is closed all along *)
@@ -181,6 +184,7 @@ Proof.
   - destruct (exec_remove_uni_spec _ _ _ _ _ _ _ _ _ E) as (n & target & _ & _ & _ & _ & _ & _ & _ & _ & _ & R). destruct R; lia.
   - destruct (exec_send_spec _ _ _ _ _ _ _ E) as (_ & _ & _ & _ & R). destruct R; lia.
   - inversion E; subst. simpl. lia.
+  - destruct (exec_update_params_spec _ _ _ _ _ E) as (_ & _ & _ & _ & _ & R & _). destruct R; lia.
 Qed.
 
 Lemma run_seq_mono ms : forall s, seq s <= seq (run s ms).
